@@ -115,6 +115,30 @@ def h_build(L, T, n, steps, sets):
     return 'built' if o[0] == 'ok' else 'rejected'
 
 
+def h_keycmp(L, key, olen, sets):
+    """comparing a stored qualifier key with an arbitrary string (`k == "..."`, `k.partial_cmp("...")`, as user code in a retain closure
+    does) gives the same answer under every feature set"""
+    other = L.sym_bytes('o', olen)
+    L.assume_utf8(other)
+    req = {'op': 'keycmp', 'key': SymStr(list(key.encode())), 'other': SymStr(other)}
+    L.expect_native(req, {})
+    outs = {}
+    for st in sets:
+        I = L.I if L.progs[st] is L.I.prog else Interp(L.progs[st], L.ctx)
+        k = Adt('QualifierKey', None, [StringBuf(list(key.encode()))])
+        o = RStr(other)
+        eq = I.ctx.decide(I.call('<qualifiers::QualifierKey as PartialEq<&str>>::eq', [Ref([k], 0), Ref([o], 0)]))
+        pc = I.call('<qualifiers::QualifierKey as PartialOrd<&str>>::partial_cmp', [Ref([k], 0), Ref([o], 0)])
+        outs[st] = (eq, pc.fields[0].variant if pc.variant == 'Some' else None)
+        L.I.trace_fns |= I.trace_fns
+    o0 = outs[sets[0]]
+    L.expect_native(req, {'eq': o0[0], 'cmp': {'Less': -1, 'Equal': 0, 'Greater': 1, None: None}[o0[1]]})
+    for st in sets[1:]:
+        if outs[st] != o0:
+            L.fail('comparing the key %r with a string differs between features %s %r and %s %r' % (key, sets[0], o0, st, outs[st]))
+    return 'accepted' if o0[0] else 'rejected'
+
+
 def queries(tier):
     th = tier == 'thorough'
     qs = []
@@ -142,6 +166,11 @@ def queries(tier):
         addp('SmallString', ['pkg:', ('hole', 'h', n)], ALL)
     for sl in SLOTS_MIN:
         addp('SmallString', fill(sl, 2), ALL)
+    # stored keys compared with arbitrary strings (QualifierKey: PartialEq<S> / PartialOrd<S> are public)
+    for key in ('k', 'fi', 'ss', 'st'):
+        for n in lens(3 if th else 3, 1):
+            qs.append(Query('key %r compared with ⟦%d⟧ [%s]' % (key, n, '|'.join(ALL)), h_keycmp, {'key': key, 'olen': n, 'sets': ALL},
+                            bound='QualifierKey(%r) == / partial_cmp every valid-UTF-8 string of %d bytes, feature sets %s' % (key, n, ALL), prog=ALL[0]))
     # typed API exists with and without smartstring
     for ty in PT_VARIANTS:
         for n in lens(3 if th else 2, 1):
@@ -170,6 +199,8 @@ def confirm(v, resp):
 def confirm_multi(v, resp, others):
     """the real crate built with each feature set must answer identically"""
     def key(r):
+        if 'eq' in r and 'cmp' in r:
+            return ('keycmp', r['eq'], r['cmp'])
         if 'ok' in r:
             o = r['ok']
             return ('ok', o['type'], o['ns'], o['name'], o['ver'], str(o['quals']), o['sub'], o['disp'])
